@@ -143,6 +143,9 @@ func c18Ctx(variant int) map[string]interface{} {
 		"st":   c18Struct{Name: "s", Items: c18Spare(2, 1), Tags: c18SpareStr("t2", "t1"), Meta: map[string]interface{}{"k": "v"}, Ptr: inner, priv: []int{1, 2}},
 		"pst":  &c18Struct{Name: "ps", Items: c18Spare("b", "a"), Tags: c18SpareStr("u2", "u1"), Meta: map[string]interface{}{"k": c18Spare(1)}, Ptr: inner},
 		"s":    "hello world", "n": 5, "pn": inner,
+		// lists and maps that hold typed nil pointers next to ordinary values
+		"nl": c18Spare(&c18Inner{N: 1}, (*c18Inner)(nil), "s", (*c18Counter)(nil), nil),
+		"nm": map[string]interface{}{"p": (*c18Inner)(nil), "l": c18Spare((*c18Struct)(nil), 2), "q": nil},
 		"cs": []c18Counter{{Name: "a"}, {Name: "b", Seen: 4}}, "c1": c18Counter{Name: "c"}, "cm": map[string]c18Counter{"k": {Name: "m"}, "j": {Name: "n"}},
 		"board": c18Board{Title: "t", Counters: []c18Counter{{Name: "x"}, {Name: "y"}}, Main: c18Counter{Name: "main"}}, "ca": [2]c18Counter{{Name: "p"}, {Name: "q"}},
 	}
@@ -254,7 +257,7 @@ func c18Snapshot(ctx map[string]interface{}) map[string]string {
 	return out
 }
 
-var c18Vars = []string{"xs", "ys", "empty", "ss", "is", "fs", "arr", "parr", "m", "m2", "tm", "tmi", "im", "mii", "yl", "ym", "ym.page", "yl[0]", "nest", "st.Items", "st.Tags", "pst.Items", "st.Meta", "pst.Meta.k", "pn.List", "m.list", "m.nested.k", "nest[0]", "s"}
+var c18Vars = []string{"xs", "ys", "empty", "ss", "is", "fs", "arr", "parr", "m", "m2", "tm", "tmi", "im", "mii", "yl", "ym", "ym.page", "yl[0]", "nest", "st.Items", "st.Tags", "pst.Items", "st.Meta", "pst.Meta.k", "pn.List", "m.list", "m.nested.k", "nest[0]", "s", "nl", "nm.l", "nm", "nl"}
 var c18Filters = []string{"sort", "reverse", "merge(ys)", "merge(xs)", "merge(m2)", "merge([9, 8])", "merge({'z': 1})", "merge(%W)", "merge(%W)", "merge(%W)", "default(%W)", "replace(%W)", "slice(0, 2)|merge(%W)", "keys|merge(%W)", "merge(%W)|sort", "slice(1, 2)", "slice(0, 1)", "slice(-2)", "slice(1)", "keys", "default([1])", "first", "last", "length", "join(',')", "json_encode", "upper", "lower",
 	"capitalize", "title", "trim", "split(' ')", "replace('a', 'b')", "abs", "round", "number_format(1)", "escape", "raw", "striptags", "nl2br", "url_encode", "format(1)", "date('Y')", "spaceless", "count"}
 
